@@ -18,20 +18,28 @@ fn items(s: &str) -> Vec<&str> {
 }
 
 /// "K:N": kind 1..5 (user kinds), I (Interrupted), E (UnexpectedEof); message "user:N"
-fn fail_of(s: &str) -> Option<(ErrorKind, String)> {
+fn fail_of(s: &str) -> Option<(ErrorKind, Option<String>)> {
     let (k, n) = s.split_once(':')?;
     let kind = match k {
         "I" => ErrorKind::Interrupted,
         "E" => ErrorKind::UnexpectedEof,
         _ => user_kind(k.parse::<u64>().ok()?),
     };
-    Some((kind, format!("user:{}", n)))
+    // "K:-" : the error is built from the kind alone (`kind.into()`), no message
+    Some((kind, if n == "-" { None } else { Some(format!("user:{}", n)) }))
+}
+
+fn mk_err(k: ErrorKind, m: &Option<String>) -> Error {
+    match m {
+        Some(m) => Error::new(k, m.clone()),
+        None => k.into(),
+    }
 }
 
 enum RResp {
     Deliver(usize),
     Interrupt,
-    Fail(ErrorKind, String),
+    Fail(ErrorKind, Option<String>),
 }
 
 fn rsched_of(s: &str) -> Option<VecDeque<RResp>> {
@@ -68,7 +76,7 @@ impl Read for SchedReader {
             None => buf.len().min(left),
             Some(RResp::Deliver(k)) => k.min(buf.len()).min(left),
             Some(RResp::Interrupt) => return Err(ErrorKind::Interrupted.into()),
-            Some(RResp::Fail(k, m)) => return Err(Error::new(k, m)),
+            Some(RResp::Fail(k, m)) => return Err(mk_err(k, &m)),
         };
         buf[..n].copy_from_slice(&self.data[self.pos..self.pos + n]);
         self.pos += n;
@@ -80,7 +88,7 @@ enum WResp {
     Accept(usize),
     Zero,
     Interrupt,
-    Fail(ErrorKind, String),
+    Fail(ErrorKind, Option<String>),
 }
 
 fn wsched_of(s: &str) -> Option<VecDeque<WResp>> {
@@ -113,7 +121,7 @@ impl Write for SchedWriter {
             Some(WResp::Accept(k)) => k.min(buf.len()),
             Some(WResp::Zero) => 0,
             Some(WResp::Interrupt) => return Err(ErrorKind::Interrupted.into()),
-            Some(WResp::Fail(k, m)) => return Err(Error::new(k, m)),
+            Some(WResp::Fail(k, m)) => return Err(mk_err(k, &m)),
         };
         self.sink.extend_from_slice(&buf[..n]);
         Ok(n)
